@@ -253,6 +253,40 @@ theorem pause_skip_unobservable (P : Params) (hP : P.fixed = true) (st : PortSt 
     runLoop P true st (tk0 :: rest) = runLoop P false st (tk0 :: rest) :=
   skip_unobservable P hP st tk0 rest hfirst hpos htr
 
+/-! ### Passes vs. the evaluation task (`has_pending_eval`)
+
+A polling pass only queues an evaluation; passes also happen right after any confirmed port write, so a pass can see
+an evaluation that is queued but has not run. -/
+
+/-- When the evaluation task runs after every pass (nothing is ever pending) the two-step model is `loopStep` with the
+skip rule, for which `pause_skip_unobservable` holds — wherever the pending-evaluation shortcut is applied. -/
+theorem drained_passes_are_the_loop (P : Params) (g : Bool) (st : PortSt Int) (ticks : List (Tick Int)) :
+    runDrained P g st ticks = runLoop P true st ticks :=
+  runDrained_eq_runLoop P g ticks st
+
+/-- The code's rule: a pass that sees a changed dependency always queues an evaluation carrying the values of that
+pass, whatever is pending or paused (the shortcuts apply to pure `asap` triggers only). -/
+theorem value_change_always_queues (P : Params) (q : QPort Int) (tk : Tick Int) (h : tk.trig = true) :
+    (passStep P false q tk).queue = q.queue ++ [(tk.now, tk.env)] ∧ (passStep P false q tk).st = q.st :=
+  trig_always_queues P q tk h
+
+/-- `FREEZE($a, 1000)`: set at 1000 with `$a = 1`; at 2050 the timer has just run out and the tick's pass queues an
+evaluation (old values); a second pass at the same instant (as fired after any confirmed write) sees `$a = 5` before
+the evaluation task has run; then plain ticks. -/
+def freezeTree : Node Int := .fn .freeze {} 0 [.port 0, .lit (some 1000)]
+def lostChangeSchedule : List (Ev Int) :=
+  [.pass ⟨1000, [some 1], true⟩, .run, .pass ⟨1500, [some 1], false⟩, .run,
+   .pass ⟨2050, [some 1], false⟩, .pass ⟨2050, [some 5], true⟩, .run,
+   .pass ⟨2100, [some 5], false⟩, .run, .pass ⟨4000, [some 5], false⟩, .run, .pass ⟨14000, [some 5], false⟩, .run]
+
+/-- **Applying the pending-evaluation shortcut to value-change triggers loses a change**: the queued evaluation
+carries the old value and ends with FREEZE pausing without limit, so the port keeps 1 for ever although the input is
+5 — while the code's rule (shortcut on pure `asap` triggers only) queues a second evaluation and the port follows. -/
+theorem pending_guard_on_all_triggers_loses_change :
+    (runEvents {} true ⟨⟨freezeTree, none⟩, []⟩ lostChangeSchedule).getLast? = some (some 1) ∧
+    (runEvents {} false ⟨⟨freezeTree, none⟩, []⟩ lostChangeSchedule).getLast? = some (some 5) := by
+  decide
+
 /-! The two witnesses of defect D7 (and the hypotheses of the theorem met by them). -/
 
 def freshFn (k : Fn) (args : List (Node Int)) : Node Int := .fn k {} 0 args
